@@ -104,6 +104,9 @@ type Macro struct {
 	Host  string  `json:"host"`
 	Tok   string  `json:"tok"`
 	Attrs int     `json:"attrs"`
+	// pipe: the Impersonate-User header (hex; nil = none). The impersonation filter then asks the authorizer whether the
+	// user the authentication produced may impersonate it.
+	Target *string `json:"target"`
 	Bound bool    `json:"bound"`          // the request passes the real WithUpstreamInfo first (info.UpstreamCluster is set)
 	Mid0  []Macro `json:"mid0,omitempty"` // bound: run between WithUpstreamInfo and the authenticator / authorizer
 	Mid1  []Macro `json:"mid1,omitempty"` // tok: run when the review closure resolves the host again
